@@ -2003,6 +2003,11 @@ func (g *Gen) opDumpLoad() bool {
 				for i := 0; i < 4 && len(saved) > 0; i++ {
 					g.emit(fmt.Sprintf("alive e%d", saved[g.pick(len(saved))]))
 				}
+				// a removal right after the load, before the pool grows: it writes a generation into the pool's
+				// array, which must not be the dump's
+				if g.chance(0.5) && len(saved) > 0 {
+					g.emit(fmt.Sprintf("del e%d", saved[g.pick(len(saved))]))
+				}
 				for i := 0; i < 2; i++ {
 					l := g.nextEnt
 					g.nextEnt++
